@@ -67,6 +67,17 @@ Definition is_vecresize (a b : stmt) : option (name * list iexpr * N * lvar) :=
   | _, _ => None
   end.
 
+(* is "a; b" a truncating transfer  x := (uW) field; sync x; field := x  (an unsigned field stored in fewer bytes
+   by old file versions, e.g. NiAVObject::flags as 16 bit up to stream version 26) ? *)
+Definition is_trunc (a b : stmt) : option (lvar * N * name * list iexpr * N) :=
+  match a, b with
+  | SLocal x (PInt false w) (ECast w' false (ELoad f idx)),
+    SSeq (SSyncLocal x' (PInt false w'')) (SAssign f' idx' (PInt false wf) (ELocal x'')) =>
+    if (x' =? x) && (x'' =? x) && (w' =? w) && (w'' =? w) && (f' =? f) && idx_eqb idx' idx && (0 <? w) && (w <=? wf)
+    then Some (x, w, f, idx, wf) else None
+  | _, _ => None
+  end.
+
 Section Chk.
   Variable Wtot : list wn.
 
@@ -106,7 +117,14 @@ Section Chk.
           (* the resize to the size just written changes nothing: the pair is the size transfer alone *)
           if target_ok P C L (WSize f) idx && free_var P x && (0 <? w) && negb (idx_mentions x idx)
           then Some (WSize f :: C, x :: L) else None
-        | None => match kchk v P a C L with Some (C1, L1) => kchk v P b C1 L1 | None => None end
+        | None =>
+          match is_trunc a b with
+          | Some (x, w, f, idx, wf) =>
+            (* the field is read before it is assigned, but what is assigned is a fixed point of the truncation *)
+            if target_ok P C L (WInt f) idx && free_var P x && negb (idx_mentions x idx)
+            then Some (WInt f :: C, x :: L) else None
+          | None => match kchk v P a C L with Some (C1, L1) => kchk v P b C1 L1 | None => None end
+          end
         end
       end
     | SIf c t e =>
